@@ -290,7 +290,19 @@ func compare(tc *tcase, run int, want []file, initial map[string]file, got snaps
 			} else if strings.HasSuffix(rel, "_templ.go") && tc.Flags.Keep {
 				sig = "OrphansGoneUnlessKept.KeptOrphanRemoved"
 			}
-			out = append(out, failure{sig, "a file the specification keeps is missing", map[string]any{"file": rel, "run": run}})
+			info := map[string]any{"file": rel, "run": run}
+			if sig == "SiblingEqualsSoloGeneration.Missing" {
+				// was the generation of this template written somewhere else?
+				if exp, other := soloOf(rel, 3); other == nil {
+					for orel, og := range got {
+						if !og.Dir && orel != rel && bytes.Equal(og.Data, exp) {
+							sig = "TargetNextToSource.WrittenElsewhere"
+							info["written_to"] = orel
+						}
+					}
+				}
+			}
+			out = append(out, failure{sig, "a file the specification keeps is missing", info})
 		case w.M >= 3:
 			// written by a run: must be the solo generation
 			exp, other := soloOf(rel, 3)
